@@ -143,6 +143,11 @@ class _Limit(object):
     @staticmethod
     def _get_arg_min(errors):
         shape = errors.shape
+        # a column without any usable estimate must not decide for the other columns: give it the first row
+        all_nan = np.all(np.isnan(errors), axis=0)
+        if np.any(all_nan):
+            warnings.warn('All-NaN slice encountered')
+            errors = np.where(all_nan, 0.0, errors)
         try:
             arg_mins = np.nanargmin(errors, axis=0)
             min_errors = np.nanmin(errors, axis=0)
@@ -153,6 +158,7 @@ class _Limit(object):
         for i, min_error in enumerate(min_errors):
             idx = np.flatnonzero(errors[:, i] == min_error)
             arg_mins[i] = idx[idx.size // 2]
+        arg_mins[all_nan] = 0
         return np.ravel_multi_index((arg_mins, np.arange(shape[1])), shape)
 
     @staticmethod
